@@ -181,11 +181,11 @@ class Ctx:
         return self.tier == 'quick'
 
     # ---- T tie
-    def gen_T(self, modname, pyfile_rel, entries, imports=()):
+    def gen_T(self, modname, pyfile_rel, entries, imports=(), known=None):
         """regenerate coq/Gen/<modname>.v from /repo/<pyfile_rel>; returns (infos, hashes)"""
         pyfile = os.path.join(REPO, pyfile_rel)
         try:
-            text, infos, hashes = py2coq.translate_module(pyfile, entries, imports)
+            text, infos, hashes = py2coq.translate_module(pyfile, entries, imports, known=known)
         except (py2coq.Unsupported, SyntaxError, OSError) as ex:
             self.log('py2coq cannot translate %s: %s' % (pyfile_rel, ex))
             self.failed_stages.append(('translate', '%s: %s' % (pyfile_rel, ex)))
